@@ -874,7 +874,7 @@ func ruleFillRange(p *core.Program) []core.Obligation {
 	const rule = "R-FILLRANGE"
 	var obs []core.Obligation
 	for _, fn := range p.Funcs {
-		if fn.Name() != "Next" || recvNamed(fn) == nil || !hasPrefixRel(fn, "execution") {
+		if !isOperatorMethod(fn) || !hasPrefixRel(fn, "execution") {
 			continue
 		}
 		type access struct {
@@ -996,7 +996,7 @@ func ruleStepEvery(p *core.Program) []core.Obligation {
 	const rule = "R-STEPEVERY"
 	var obs []core.Obligation
 	for _, fn := range p.Funcs {
-		if fn.Name() != "Next" || fn.Parent() != nil || recvNamed(fn) == nil || !hasPrefixRel(fn, "execution") {
+		if fn.Parent() != nil || !isOperatorMethod(fn) || !hasPrefixRel(fn, "execution") {
 			continue
 		}
 		loops := core.LoopBodies(fn)
@@ -1510,7 +1510,7 @@ func ruleCursorReset(p *core.Program) []core.Obligation {
 	const rule = "R-CURSORRESET"
 	var obs []core.Obligation
 	for _, fn := range p.Funcs {
-		if fn.Name() != "Next" || fn.Parent() != nil || core.Rel(fn.Pkg.Pkg.Path()) != "execution/scan" {
+		if fn.Parent() != nil || !isOperatorMethod(fn) || core.Rel(fn.Pkg.Pkg.Path()) != "execution/scan" {
 			continue
 		}
 		loops := core.LoopBodies(fn)
@@ -1736,7 +1736,8 @@ func ruleScalarEnd(p *core.Program) []core.Obligation {
 	var obs []core.Obligation
 	found := map[string]bool{}
 	for _, fn := range p.Funcs {
-		if fn.Name() != "Next" || fn.Parent() != nil {
+		// Next itself or a helper method of the operator that Next delegates the pull to
+		if fn.Parent() != nil || !hasPrefixRel(fn, "execution") {
 			continue
 		}
 		rn := recvNamed(fn)
@@ -2197,17 +2198,31 @@ func ruleDropExact(p *core.Program) []core.Obligation {
 				if iff == nil || !(core.BranchDominates(bb, 0, b) || core.BranchDominates(bb, 1, b)) {
 					continue
 				}
-				core.BackSlice(iff.Cond, func(v ssa.Value) bool {
-					if bo, ok := v.(*ssa.BinOp); ok && (bo.Op == token.EQL || bo.Op == token.NEQ) {
-						if f := matcherFieldLoad(bo.X); f != "" {
-							cmp[f] = true
+				var collect func(v ssa.Value, depth int)
+				collect = func(v ssa.Value, depth int) {
+					core.BackSlice(v, func(x ssa.Value) bool {
+						if bo, ok := x.(*ssa.BinOp); ok && (bo.Op == token.EQL || bo.Op == token.NEQ) {
+							if f := matcherFieldLoad(bo.X); f != "" {
+								cmp[f] = true
+							}
+							if f := matcherFieldLoad(bo.Y); f != "" {
+								cmp[f] = true
+							}
 						}
-						if f := matcherFieldLoad(bo.Y); f != "" {
-							cmp[f] = true
+						// a predicate of the repo (func sameMatcher(a, b *labels.Matcher) bool): what it compares
+						if c, ok := x.(*ssa.Call); ok && depth < 2 {
+							if h := c.Call.StaticCallee(); h != nil && p.InRepo(h) && h.Blocks != nil {
+								core.EachInstr(h, func(_ *ssa.BasicBlock, _ int, hi ssa.Instruction) {
+									if hb, ok := hi.(*ssa.BinOp); ok {
+										collect(hb, depth+1)
+									}
+								})
+							}
 						}
-					}
-					return true
-				})
+						return true
+					})
+				}
+				collect(iff.Cond, 0)
 			}
 			if cmp["Name"] && cmp["Type"] && cmp["Value"] {
 				obs = append(obs, core.Ob(rule, key, p.Pos(call.Pos()), core.FuncName(fn), core.Held, "the deleted matcher is identified by name, type and value"))
@@ -2894,10 +2909,7 @@ func rulePutOnce(p *core.Program) []core.Obligation {
 	var obs []core.Obligation
 	put := "(*" + modModel + ".VectorPool).PutStepVector"
 	for _, fn := range p.Funcs {
-		if fn.Name() != "Next" && fn.Parent() == nil {
-			continue
-		}
-		if !hasPrefixRel(fn, "execution") {
+		if !isOperatorMethod(fn) || !hasPrefixRel(fn, "execution") {
 			continue
 		}
 		// batch value -> put sites whose argument is an element of it
@@ -3288,4 +3300,24 @@ func lenAtLeast(fn *ssa.Function, s ssa.Value, n int64, use ssa.Instruction) boo
 		}
 	}
 	return false
+}
+
+// isOperatorMethod reports whether fn is a method (or a closure inside a method) of a type that implements the
+// operator interface (it has Next and Series): the batch loop of an operator may live in Next itself or in a
+// helper method Next delegates to.
+func isOperatorMethod(fn *ssa.Function) bool {
+	n := recvNamed(fn)
+	if n == nil {
+		return false
+	}
+	ms := types.NewMethodSet(types.NewPointer(n))
+	has := func(name string) bool {
+		for i := 0; i < ms.Len(); i++ {
+			if ms.At(i).Obj().Name() == name {
+				return true
+			}
+		}
+		return false
+	}
+	return has("Next") && has("Series") && has("GetPool")
 }
